@@ -4,7 +4,8 @@ import IncrVerif.Proofs.ExpertH52
 # Per-key operators: a decidable sufficient check of `RunOKP` (for kernel-checked example histories)
 
 `effOf : Nat → List Effect` with `∀ f vals, env.fnEff f vals = effOf f` (the shape of `Defs.toEnv`).
-* `usesB t`: one backward pass over the instruction list computing the used local indices; sound for `UsesInput t`.
+* `usesB t`: one backward pass over the instruction list computing the used local indices; sound for `UsesInput t`
+  (NOT part of the check since stage 1b: families that ignore their input are in the fragment).
 * `templOKB effOf t` → `TemplOK env t`.
 * `keysSubB a b` ↔ `keysSub a b`; `sortedValB`.
 * `pInstrOKB`, `pWriteOKB`, `mapVarB`, `pActionOKB env effOf s a` → `PActionOK env s a`.
@@ -110,14 +111,14 @@ def templOKB (effOf : Nat → List Effect) (t : Template) : Bool :=
     match t.instrs[j]? with
     | some i => (instrOpnds i).all (tOpndOKB j)
     | none => true) &&
-  tOpndOKB t.instrs.length t.ret && usesB t
+  tOpndOKB t.instrs.length t.ret
 
 theorem templOKB_sound {env : Env} {effOf : Nat → List Effect} (heff : ∀ f vals, env.fnEff f vals = effOf f)
     {t : Template} (h : templOKB effOf t = true) : TemplOK env t := by
   unfold templOKB at h
   simp only [Bool.and_eq_true] at h
-  obtain ⟨⟨⟨h1, h2⟩, h3⟩, h4⟩ := h
-  refine ⟨fun i hi => tInstrOKB_sound heff (List.all_eq_true.1 h1 i hi), ?_, tOpndOKB_sound h3, usesB_sound h4⟩
+  obtain ⟨⟨h1, h2⟩, h3⟩ := h
+  refine ⟨fun i hi => tInstrOKB_sound heff (List.all_eq_true.1 h1 i hi), ?_, tOpndOKB_sound h3⟩
   intro j i hj o ho
   have hlt : j < t.instrs.length := by
     obtain ⟨hlt, -⟩ := List.getElem?_eq_some_iff.1 hj
@@ -239,13 +240,24 @@ theorem mapInputB_sound {s : State} {x : Opnd} (h : mapInputB s x = true) :
       simp only [Bool.and_eq_true, decide_eq_true_eq] at h
       exact ⟨k, o, c, vc, m, rfl, ho, hk, hc, hv, h.1, nodeValB_sound h.2⟩
 
+/-- the cutoff argument of a per-key operator: absent, or the default `.eq` -/
+def cutOKB : Option CutoffK → Bool
+  | none => true
+  | some .eq => true
+  | _ => false
+
+theorem cutOKB_sound {cut : Option CutoffK} (h : cutOKB cut = true) : cut = none ∨ cut = some .eq := by
+  cases cut with
+  | none => exact Or.inl rfl
+  | some c => cases c <;> first | exact Or.inr rfl | cases h
+
 def pInstrOKB (env : Env) (effOf : Nat → List Effect) (s : State) : Instr → Bool
   | .const _ => true
   | .var v => sortedValB v
   | .map f args => decide (f < fnZip) && (effOf f).isEmpty && args.all ExpertH.opndB
   | .fold f _ cs => decide (f < xBase) && cs.all ExpertH.opndB
   | .zip a b => ExpertH.opndB a && ExpertH.opndB b
-  | .perKey cut fam x => cut.isNone && templOKB effOf (env.perKey fam) && mapInputB s x &&
+  | .perKey cut fam x => cutOKB cut && templOKB effOf (env.perKey fam) && mapInputB s x &&
       (templOuter (env.perKey fam)).all fun k => (s.top[k]?).isSome
   | _ => false
 
@@ -265,9 +277,9 @@ theorem pInstrOKB_sound {env : Env} {effOf : Nat → List Effect} (heff : ∀ f 
     simp only [Bool.and_eq_true] at h
     exact ⟨ExpertH.opndB_sound h.1, ExpertH.opndB_sound h.2⟩
   case perKey cut fam x =>
-    simp only [Bool.and_eq_true, Option.isNone_iff_eq_none] at h
+    simp only [Bool.and_eq_true] at h
     obtain ⟨⟨⟨h1, h2⟩, h3⟩, h4⟩ := h
-    refine ⟨h1, templOKB_sound heff h2, mapInputB_sound h3, fun k hk => ?_⟩
+    refine ⟨cutOKB_sound h1, templOKB_sound heff h2, mapInputB_sound h3, fun k hk => ?_⟩
     have := List.all_eq_true.1 h4 k hk
     exact Option.isSome_iff_exists.1 this
 
